@@ -142,6 +142,15 @@ Theorem C11_split_regions_prev_shift : forall BIN MAXLEN MINREADS ABSV RN RD m r
   option_map (shl (m * BIN)) (split_regions_prev BIN MAXLEN MINREADS ABSV RN RD r count cov first last).
 Proof. exact split_regions_prev_shift. Qed.
 Print Assumptions C11_split_regions_prev_shift.
+(* ... but the decision not to split a short locus with few reads is invariant under EVERY shift *)
+Theorem C11_unsplit_decision_shift_invariant : forall BIN MAXLEN MINREADS ABSV RN RD k r count cov cov' first first' last last',
+  py_interval_len r < MAXLEN -> count < MINREADS ->
+  split_regions BIN MAXLEN MINREADS ABSV RN RD r count cov first last = Some [r] /\
+  split_regions BIN MAXLEN MINREADS ABSV RN RD (sh k r) count cov' first' last' = Some [sh k r] /\
+  split_regions_prev BIN MAXLEN MINREADS ABSV RN RD r count cov first last = Some [r] /\
+  split_regions_prev BIN MAXLEN MINREADS ABSV RN RD (sh k r) count cov' first' last' = Some [sh k r].
+Proof. exact unsplit_decision_shift_invariant. Qed.
+Print Assumptions C11_unsplit_decision_shift_invariant.
 (* the coverage dictionary and its key range of alignments shifted by m bins are the shifted dictionary / range *)
 Theorem C11_coverage_bins_shift : forall BIN m, 0 < BIN -> forall l,
   (forall p, cov_of BIN (map (shaln BIN m) l) p = shcov m (cov_of BIN l) p) /\
